@@ -61,7 +61,7 @@ def make_config(a, tmp):
     elif a["masters"] == "three":
         ms = [("thin", "Thin", pos([100, 50]), srcs), ("regular", "Regular", pos([400, 100.5]), srcs), ("bold", "Bold", pos([900, 200]), srcs)]
     else:
-        ms = [("reg ular", "Reg \"ular\"", pos([400, 100.5]), (Path(tmp) / "dir, with 'odd' chars" / "é x.svg",))]
+        ms = [("reg ular", "Reg \"ular\"", pos([400, 100.5]), (Path(tmp) / "dir, with 'odd' chars" / "é x.svg", Path(tmp) / "emoji_u1f601[1] (copy)?.svg"))]
     masters = tuple(MasterConfig(n, sn, ".".join((stem, n, "ufo")), p, tuple(sorted(s))) for n, sn, p, s in ms)
     names = tuple(sorted({s.name for s in masters[0].sources}))
     kw = {k: a[k] for k in CONFIG_DIMS if k not in ("axes", "masters", "transform")}
